@@ -27,6 +27,23 @@ def hStream : Handler := fun args impl => do
   if impl.find "out2" ≠ impl.find "out" then fails := fails ++ ["stream_not_identical_on_second_run"]
   pure (model, fails)
 
+/-- `state L624 words index count` — the generator started from an explicit state (hook) -/
+def hState : Handler := fun args impl => do
+  let ((buf, index, count), _) ← (do let b ← listOf nat; let i ← nat; let c ← nat; pure (b, i, c) : P _).run args
+  if buf.length ≠ 624 || index > 624 then throw "state: 624 words and an index up to 624 expected"
+  let st : Rng.MT := ⟨(buf.map (·.toUInt32)).toArray, index⟩
+  let outs := Rng.outputs count st
+  let model : Res := [("out", oList (fun (y : UInt32) => [oU y.toNat]) outs)]
+  let got ← impl.parse "out" (listOf nat)
+  let ref := (Spec.MT.streamFrom (buf.map (·.toUInt32)) index count).map (·.toNat)
+  let mut fails : List String := []
+  if got.length ≠ count then fails := fails ++ ["stream_length"]
+  else
+    match ((got.zip ref).zipIdx.find? fun ((a, b), _) => a ≠ b) with
+    | some (_, k) => fails := fails ++ [s!"stream_from_state_differs_from_reference_recurrence_at_position:{k}"]
+    | none => pure ()
+  pure (model, fails)
+
 /-- `maps u imin imax fmin fmax dmin dmax` — one raw output through every range map -/
 def hMaps : Handler := fun args impl => do
   let ((u, imin, imax, fmin, fmax, dmin, dmax), _) ← (do
@@ -52,5 +69,5 @@ def hMaps : Handler := fun args impl => do
     if !(dmin ≤ d && d ≤ dmax) then fails := fails ++ ["f64_minmax_leaves_[min,max]"]
   pure (model, fails)
 
-def handlers : List (String × Handler) := [("stream", hStream), ("maps", hMaps)]
+def handlers : List (String × Handler) := [("stream", hStream), ("state", hState), ("maps", hMaps)]
 end ScadVerif.Driver.C19
